@@ -1096,6 +1096,9 @@ public:
     pushOutputContext(FormatterListener*    theListener)
     {
         m_outputContextStack.pushContext(theListener);
+
+        // The new context is a result tree of its own...
+        m_resultNamespacesStack.pushScope();
     }
 
     /*
@@ -1104,6 +1107,8 @@ public:
     void
     popOutputContext()
     {
+        m_resultNamespacesStack.popScope();
+
         m_outputContextStack.popContext();
     }
 
